@@ -353,6 +353,17 @@ pub fn verif_root() -> String {
 /// Build context of the user's crate, varied per generated crate: edition 2021 / 2018 / 2024 and a declared
 /// `rust-version` (none / 1.70 / 1.82). Nothing the properties say depends on either; a macro that emits
 /// edition-dependent code (a trait that is only in the 2021 prelude) or looks at CARGO_PKG_RUST_VERSION shows here.
+/// crate a module goes to: by the number in its name (m12, d12), not by its position in the list, so that a
+/// declaration stays in the same crate — the same build context — when the list shrinks between two rounds
+fn crate_of(module_name: &str, position: usize, ncrates: usize) -> usize {
+    let digits: String = module_name.chars().filter(|c| c.is_ascii_digit()).collect();
+    digits.parse::<usize>().unwrap_or(position) % ncrates.max(1)
+}
+
+/// build context used for single-crate workspaces (isolated re-checks, replays): 0 = edition 2021, 1 = 2018,
+/// 3 = 2024; see `vprops::check_isolated_contexts`
+pub static ISO_CONTEXT: std::sync::atomic::AtomicUsize = std::sync::atomic::AtomicUsize::new(0);
+
 pub fn package_context(c: usize) -> String {
     let edition = ["2021", "2018", "2021", "2024"][c % 4];
     // (edition 2024 needs 1.85 at least)
@@ -385,7 +396,7 @@ pub fn write_b_workspace(dir: &Path, crate_prefix: &str, modules: &[(String, Str
         writeln!(main, "{}", MOD_ALLOW).unwrap();
         let mut entries = Vec::new();
         for (k, (mname, src)) in modules.iter().enumerate() {
-            if k % ncrates != c {
+            if crate_of(mname, k, ncrates) != c {
                 continue;
             }
             std::fs::write(cdir.join("src").join(format!("{}.rs", mname)), src).unwrap();
@@ -439,7 +450,7 @@ pub fn write_v_crate_n(dir: &Path, name: &str, files: &[(String, String)], no_st
         }
         writeln!(lib, "#![allow(dead_code, unused_imports, unused_variables, unused_mut, deprecated, unreachable_code, non_camel_case_types, unused_parens)]").unwrap();
         for (k, (m, src)) in files.iter().enumerate() {
-            if k % ncrates != c {
+            if crate_of(m, k, ncrates) != c {
                 continue;
             }
             std::fs::write(cdir.join("src").join(format!("{}.rs", m)), src).unwrap();
@@ -453,7 +464,7 @@ pub fn write_v_crate_n(dir: &Path, name: &str, files: &[(String, String)], no_st
         let toml = format!(
             "[package]\nname = \"{}\"\nversion = \"0.0.0\"\n{}\n[dependencies]\nbitbybit = {{ path = \"{}\" }}\narbitrary-int = \"1.3.0\"\n",
             cname,
-            package_context(c),
+            package_context(if ncrates == 1 { ISO_CONTEXT.load(std::sync::atomic::Ordering::Relaxed) } else { c }),
             macro_path()
         );
         std::fs::write(cdir.join("Cargo.toml"), toml).unwrap();
